@@ -221,6 +221,10 @@ class _Gen:
                 self.tags["inject"] += 1
             else:
                 op, i = self.alloc_op()
+                if lvl != "none" and op.startswith(("acq", "calloc", "realloc")) and rng.random() < 0.07:
+                    # the tracer's timestamp read fails for the next allocation(s): no reason to lose the record
+                    self.ops.append(f"clock_fail {rng.choice([1, 1, 1, 2, 3])}")
+                    self.tags["clock_fail"] = self.tags.get("clock_fail", 0) + 1
                 self.ops.append(op)
                 if i and i in self.live and self.live[i] <= 8192 and rng.random() < 0.5:
                     self.ops.append(f"fill {i} {rng.randint(0, 255)}")
@@ -348,6 +352,7 @@ def nobt_cases(rng, tier):
 
 
 MALFORMED = [
+    ["clock_fail 2", "new bytes 8", "clock_fail 1", "acq p0 5", "clock_fail x", "calloc p1 2 2", "realloc p0 9 move", "rel p0", "rel p1", "bytes", "destroy"],
     ["new bytes 8 sideways", "new bytes 8 minimal extra", "new none 8 nocalloc", "calloc p0 2 2", "realloc p0 9 keep", "destroy"],
     ["acq p1 5"],                                    # no tracer
     ["new bytes 8", "new bytes 8", "destroy", "destroy"],
@@ -559,7 +564,7 @@ def oracle(case, lines):
                 errs.append("harness monitor: " + nxt())
             check_stat(nxt(), op)
             continue
-        if t[0] == "depth":
+        if t[0] == "depth" or (t[0] == "clock_fail" and len(t) == 2 and t[1].isdigit()):
             continue
         if ref is None:
             if nxt() != "bad-op":
@@ -692,10 +697,22 @@ def nontrivial(case):
 def distribution(cases, c_out):
     d = {"levels": {}, "ops": {}, "injected": 0, "inject_point": {}, "realloc_keep": 0, "realloc_move": 0, "realloc_zero": 0,
          "huge_sizes": 0, "frames": {}, "inj_unreached": 0, "dump_nonempty": 0}
+    d["clock_faults_armed"] = 0
+    d["clock_faults_fired"] = 0
     for i, c in enumerate(cases):
+        pend, tracing = 0, False
         for o in c.ops:
             t = o.split()
             d["ops"][t[0]] = d["ops"].get(t[0], 0) + 1
+            if t[0] == "new" and len(t) >= 3:
+                tracing = t[1] in ("bytes", "stacks")
+            if t[0] == "clock_fail" and len(t) == 2 and t[1].isdigit():
+                pend = int(t[1])
+                d["clock_faults_armed"] += pend
+            tt = t[3:] if t[0] == "inject" else t
+            if tracing and pend and tt and tt[0] in ("acq", "calloc", "realloc") and not (tt[0] == "realloc" and tt[2] == "0"):
+                pend -= 1
+                d["clock_faults_fired"] += 1     # (upper bound: a refused call reads no clock)
             if t[0] == "new" and len(t) in (3, 4, 5):
                 d["levels"][t[1]] = d["levels"].get(t[1], 0) + 1
                 d["frames"][t[2]] = d["frames"].get(t[2], 0) + 1
